@@ -248,17 +248,14 @@ class BSplines():
                 self._integrals[:] = dx
                 self._integrals[n:] = 0
             else:
-                self._integrals[d:-d] = dx
-                values = np.empty(d+2)
-                knots = np.linspace(xmin, xmin+dx*11, 12)
-                test_pt = xmin + 4*dx
-                span = nu_find_span(knots, 4, test_pt)
-                nu_basis_funs(knots, 4, test_pt, span, values)
-
-                for i in range(3):
-                    step = dx*(1 - sum(values[:3-i]))
-                    self._integrals[i] = step
-                    self._integrals[-i-1] = step
+                # Each uniform cubic B-spline covers 4 cells, over which its
+                # integrals are dx*(1,11,11,1)/24. Basis function i covers
+                # the cells i-3,...,i of which only those inside the domain
+                # (0 <= cell < ncells) contribute
+                piece = dx*np.array([1, 11, 11, 1])/24
+                for i in range(self.ncells + d):
+                    self._integrals[i] = sum(piece[k] for k in range(4)
+                                             if 0 <= i-k < self.ncells)
         else:
             knots = np.array([self.knots[0], *self.knots, self.knots[-1]])
             values = np.empty(d+2)
